@@ -1,9 +1,10 @@
 /-
   C11, decoder image invariant: a value of the reader's shape (`decV`) whose lexical leaves are covered
-  (`lexLeavesOk`) and that is not on the exclusion list is well-formed in the sense of C01 (`wfV`, after `asRead`)
-  and is its own lexical image.
+  (`lexLeavesOk`) and that is not on the exclusion list satisfies the hypotheses of C01's round trip (`GoodVG`: as
+  `wfV` of C01, after `asRead`, column names possibly repeated) and is its own lexical image.
 -/
 import Hs.Lemmas.ZincImageBase
+import Hs.Lemmas.ZincImageDup3
 namespace Hs.Zinc
 open Hs Hs.Scan
 
@@ -95,123 +96,129 @@ theorem nest_asReadR : ∀ r : Rows, nestR (asReadR r) = nestR r
   | .cons r rs => by simp [asReadR, nestR, nest_asReadT r, nest_asReadR rs]
 end
 
-/-! ### the invariant implies C01's well-formedness -/
+/-! ### the invariant implies the hypotheses of C01's round trip -/
 
-theorem lexBits_not_nan : Flt.isNaNBits lexBits = false := by decide
-theorem lexBits_not_inf : Flt.isInfBits lexBits = false := by decide
+/-- a leaf: `GoodVG` is `GoodV` is what `wfV` gives -/
+theorem goodG_leaf (v : Val) (hs : Scalar v = true) (h : wfV v = true) : GoodVG v := by
+  have := good_of_wf v h
+  cases v <;> first | (simp [Scalar] at hs; done) | (simp only [GoodV] at this; simp only [GoodVG]; exact this)
 
 mutual
-theorem image_wf : ∀ v : Val, decV v = true → lexLeavesOk v = true → anyGrid badNode v = false →
-    wfV (asRead v) = true ∧ lexImg (asRead v) = v
-  | .null, _, _, _ => ⟨rfl, rfl⟩
-  | .remove, _, _, _ => ⟨rfl, rfl⟩
-  | .marker, _, _, _ => ⟨rfl, rfl⟩
-  | .na, _, _, _ => ⟨rfl, rfl⟩
-  | .bool _, _, _, _ => ⟨rfl, rfl⟩
-  | .str _, _, _, _ => ⟨rfl, rfl⟩
-  | .uri _, _, _, _ => ⟨rfl, rfl⟩
-  | .ref id dis, hd, _, _ => by simp only [decV] at hd; exact ⟨by simpa [asRead, wfV] using hd, rfl⟩
-  | .sym s, hd, _, _ => by simp only [decV] at hd; exact ⟨by simpa [asRead, wfV] using hd, rfl⟩
-  | .xstr ty x, hd, _, _ => by simp only [decV] at hd; exact ⟨by simpa [asRead, wfV] using hd, rfl⟩
+theorem image_good : ∀ v : Val, decV v = true → lexLeavesOk v = true → anyGrid badNode v = false →
+    GoodVG (asRead v) ∧ lexImg (asRead v) = v
+  | .null, _, _, _ => ⟨goodG_leaf _ rfl rfl, rfl⟩
+  | .remove, _, _, _ => ⟨goodG_leaf _ rfl rfl, rfl⟩
+  | .marker, _, _, _ => ⟨goodG_leaf _ rfl rfl, rfl⟩
+  | .na, _, _, _ => ⟨goodG_leaf _ rfl rfl, rfl⟩
+  | .bool _, _, _, _ => ⟨goodG_leaf _ rfl rfl, rfl⟩
+  | .str _, _, _, _ => ⟨goodG_leaf _ rfl rfl, rfl⟩
+  | .uri _, _, _, _ => ⟨goodG_leaf _ rfl rfl, rfl⟩
+  | .ref id dis, hd, _, _ => by
+    simp only [decV] at hd; exact ⟨goodG_leaf _ rfl (by simpa [asRead, wfV] using hd), rfl⟩
+  | .sym s, hd, _, _ => by
+    simp only [decV] at hd; exact ⟨goodG_leaf _ rfl (by simpa [asRead, wfV] using hd), rfl⟩
+  | .xstr ty x, hd, _, _ => by
+    simp only [decV] at hd; exact ⟨goodG_leaf _ rfl (by simpa [asRead, wfV] using hd), rfl⟩
   | .num n, hd, hl, _ => by
     simp only [decV, decide_eq_true_eq] at hd
     simp only [lexLeavesOk] at hl
-    exact ⟨by simpa [asRead, wfV] using hl, by simp [asRead, lexImg, hd]⟩
-  | .date d, _, hl, _ => by simp only [lexLeavesOk] at hl; exact ⟨by simpa [asRead, wfV] using hl, rfl⟩
-  | .time t, _, hl, _ => by simp only [lexLeavesOk] at hl; exact ⟨by simpa [asRead, wfV] using hl, rfl⟩
+    exact ⟨goodG_leaf _ rfl (by simpa [asRead, wfV] using hl), by simp [asRead, lexImg, hd]⟩
+  | .date d, hd, _, _ => by
+    simp only [decV] at hd; exact ⟨goodG_leaf _ rfl (by simpa [asRead, wfV] using hd), rfl⟩
+  | .time t, _, hl, _ => by
+    simp only [lexLeavesOk] at hl; exact ⟨goodG_leaf _ rfl (by simpa [asRead, wfV] using hl), rfl⟩
   | .dateTime t, hd, hl, _ => by
     simp only [lexLeavesOk] at hl
     simp only [decV, Bool.and_eq_true, beq_iff_eq] at hd
     obtain ⟨⟨⟨⟨h1, h2⟩, h3⟩, h4⟩, h5⟩ := hd
-    refine ⟨by simpa [asRead, wfV] using hl, ?_⟩
+    refine ⟨goodG_leaf _ rfl (by simpa [asRead, wfV] using hl), ?_⟩
     cases t
     simp only at h1 h2 h3 h4 h5
     subst h1 h2 h3 h4 h5
     simp [asRead, lexImg]
-  | .coord a b, hd, hl, _ => by
-    simp only [lexLeavesOk] at hl
+  | .coord a b, hd, _, _ => by
     simp only [decV, Bool.and_eq_true, beq_iff_eq] at hd
-    refine ⟨by simpa [asRead, wfV] using hl, ?_⟩
+    refine ⟨goodG_leaf _ rfl (by simp [asRead, wfV, hd.1.2, hd.2]), ?_⟩
     cases a; cases b
     simp only at hd
-    simp [asRead, lexImg, hd.1, hd.2]
+    simp [asRead, lexImg, hd.1.1.1, hd.1.1.2]
   | .list xs, hd, hl, hx => by
     simp only [decV] at hd; simp only [lexLeavesOk] at hl; simp only [anyGrid] at hx
-    obtain ⟨h1, h2⟩ := image_wfs xs hd hl hx
-    exact ⟨by simpa [asRead, wfV] using h1, by simp [asRead, lexImg, h2]⟩
+    obtain ⟨h1, h2⟩ := image_goods xs hd hl hx
+    exact ⟨by simpa [asRead, GoodVG] using h1, by simp [asRead, lexImg, h2]⟩
   | .dict d, hd, hl, hx => by
     simp only [decV, Bool.and_eq_true] at hd; simp only [lexLeavesOk] at hl; simp only [anyGrid] at hx
-    obtain ⟨h1, h2⟩ := image_wfT d hd.2 hl hx
+    obtain ⟨h1, h2⟩ := image_goodT d hd.2 hl hx
     refine ⟨?_, by simp [asRead, lexImg, h2]⟩
-    simp only [asRead, wfV, Bool.and_eq_true, keysIdent_asReadT, keys_asReadT]
-    exact ⟨⟨hd.1.1, hd.1.2⟩, h1⟩
+    simp only [asRead, GoodVG, keysIdent_asReadT, keys_asReadT]
+    exact ⟨hd.1.1, hd.1.2, h1⟩
   | .grid md cols rows ver, hd, hl, hx => by
     simp only [decV, Bool.and_eq_true] at hd
     simp only [lexLeavesOk, Bool.and_eq_true] at hl
     simp only [anyGrid, badNode, Bool.or_eq_false_iff] at hx
     obtain ⟨⟨⟨⟨⟨⟨dm, dne⟩, dcs⟩, drs⟩, dO⟩, dC⟩, dR⟩ := hd
-    obtain ⟨⟨⟨⟨⟨xver, xz4⟩, xdup⟩, xO⟩, xC⟩, xR⟩ := hx
-    obtain ⟨o1, o2⟩ := image_wfO md dO hl.1.1 xO
-    obtain ⟨c1, c2⟩ := image_wfC cols dC hl.1.2 xC
-    obtain ⟨r1, r2⟩ := image_wfR rows dR hl.2 xR
+    obtain ⟨⟨⟨⟨xver, xz4⟩, xO⟩, xC⟩, xR⟩ := hx
+    obtain ⟨o1, o2⟩ := image_goodO md dO hl.1.1 xO
+    obtain ⟨c1, c2⟩ := image_goodC cols dC hl.1.2 xC
+    obtain ⟨r1, r2⟩ := image_goodR rows dR hl.2 xR
     refine ⟨?_, by simp [asRead, lexImg, o2, c2, r2]⟩
-    simp only [asRead, wfV, Bool.and_eq_true, beq_iff_eq, metaShape_asReadO, names_asReadC, length_asReadC]
+    simp only [asRead, GoodVG, metaShape_asReadO, names_asReadC, length_asReadC]
     have hver : ver = ['3', '.', '0'] := by simpa [exVer] using xver
-    have hcs : colsShape (asReadC cols) = true := by
-      simp only [colsShape, Bool.and_eq_true, colsShapeAux_asReadC, names_asReadC]
-      exact ⟨⟨by cases cols <;> simp_all [asReadC, colsNE], dcs⟩, by simpa [exDup] using xdup⟩
+    have hcs : colsShapeG (asReadC cols) = true := by
+      simp only [colsShapeG, Bool.and_eq_true, colsShapeAux_asReadC]
+      exact ⟨by cases cols <;> simp_all [asReadC, colsNE], dcs⟩
     have hrs : rowsShape cols.names (cols.length == 1) (asReadR rows) = true := by
       apply rowsShape_asReadR _ _ rows drs
       intro hs
       simpa [exZ4, hs] using xz4
-    exact ⟨⟨⟨⟨⟨⟨hver, dm⟩, hcs⟩, hrs⟩, o1⟩, c1⟩, r1⟩
-theorem image_wfs : ∀ xs : Vals, decVs xs = true → lexLeavesOks xs = true → anyGridVs badNode xs = false →
-    wfVs (asReads xs) = true ∧ lexImgs (asReads xs) = xs
-  | .nil, _, _, _ => ⟨rfl, rfl⟩
+    exact ⟨hver, dm, hcs, hrs, o1, c1, r1⟩
+theorem image_goods : ∀ xs : Vals, decVs xs = true → lexLeavesOks xs = true → anyGridVs badNode xs = false →
+    GoodVsG (asReads xs) ∧ lexImgs (asReads xs) = xs
+  | .nil, _, _, _ => ⟨trivial, rfl⟩
   | .cons v vs, hd, hl, hx => by
     simp only [decVs, Bool.and_eq_true] at hd
     simp only [lexLeavesOks, Bool.and_eq_true] at hl
     simp only [anyGridVs, Bool.or_eq_false_iff] at hx
-    obtain ⟨a1, a2⟩ := image_wf v hd.1 hl.1 hx.1
-    obtain ⟨b1, b2⟩ := image_wfs vs hd.2 hl.2 hx.2
-    exact ⟨by simp [asReads, wfVs, a1, b1], by simp [asReads, lexImgs, a2, b2]⟩
-theorem image_wfT : ∀ t : Tags, decT t = true → lexLeavesOkT t = true → anyGridT badNode t = false →
-    wfT (asReadT t) = true ∧ lexImgT (asReadT t) = t
-  | .nil, _, _, _ => ⟨rfl, rfl⟩
+    obtain ⟨a1, a2⟩ := image_good v hd.1 hl.1 hx.1
+    obtain ⟨b1, b2⟩ := image_goods vs hd.2 hl.2 hx.2
+    exact ⟨by simp only [asReads, GoodVsG]; exact ⟨a1, b1⟩, by simp [asReads, lexImgs, a2, b2]⟩
+theorem image_goodT : ∀ t : Tags, decT t = true → lexLeavesOkT t = true → anyGridT badNode t = false →
+    GoodTG (asReadT t) ∧ lexImgT (asReadT t) = t
+  | .nil, _, _, _ => ⟨trivial, rfl⟩
   | .cons k v t, hd, hl, hx => by
     simp only [decT, Bool.and_eq_true] at hd
     simp only [lexLeavesOkT, Bool.and_eq_true] at hl
     simp only [anyGridT, Bool.or_eq_false_iff] at hx
-    obtain ⟨a1, a2⟩ := image_wf v hd.1 hl.1 hx.1
-    obtain ⟨b1, b2⟩ := image_wfT t hd.2 hl.2 hx.2
-    exact ⟨by simp [asReadT, wfT, a1, b1], by simp [asReadT, lexImgT, a2, b2]⟩
-theorem image_wfO : ∀ o : OTags, decO o = true → lexLeavesOkO o = true → anyGridO badNode o = false →
-    wfO (asReadO o) = true ∧ lexImgO (asReadO o) = o
-  | .none, _, _, _ => ⟨rfl, rfl⟩
+    obtain ⟨a1, a2⟩ := image_good v hd.1 hl.1 hx.1
+    obtain ⟨b1, b2⟩ := image_goodT t hd.2 hl.2 hx.2
+    exact ⟨by simp only [asReadT, GoodTG]; exact ⟨a1, b1⟩, by simp [asReadT, lexImgT, a2, b2]⟩
+theorem image_goodO : ∀ o : OTags, decO o = true → lexLeavesOkO o = true → anyGridO badNode o = false →
+    GoodOG (asReadO o) ∧ lexImgO (asReadO o) = o
+  | .none, _, _, _ => ⟨trivial, rfl⟩
   | .some t, hd, hl, hx => by
     simp only [decO] at hd; simp only [lexLeavesOkO] at hl; simp only [anyGridO] at hx
-    obtain ⟨a1, a2⟩ := image_wfT t hd hl hx
-    exact ⟨by simp [asReadO, wfO, a1], by simp [asReadO, lexImgO, a2]⟩
-theorem image_wfC : ∀ c : Cols, decC c = true → lexLeavesOkC c = true → anyGridC badNode c = false →
-    wfC (asReadC c) = true ∧ lexImgC (asReadC c) = c
-  | .nil, _, _, _ => ⟨rfl, rfl⟩
+    obtain ⟨a1, a2⟩ := image_goodT t hd hl hx
+    exact ⟨by simp only [asReadO, GoodOG]; exact a1, by simp [asReadO, lexImgO, a2]⟩
+theorem image_goodC : ∀ c : Cols, decC c = true → lexLeavesOkC c = true → anyGridC badNode c = false →
+    GoodCG (asReadC c) ∧ lexImgC (asReadC c) = c
+  | .nil, _, _, _ => ⟨trivial, rfl⟩
   | .cons n md c, hd, hl, hx => by
     simp only [decC, Bool.and_eq_true] at hd
     simp only [lexLeavesOkC, Bool.and_eq_true] at hl
     simp only [anyGridC, Bool.or_eq_false_iff] at hx
-    obtain ⟨a1, a2⟩ := image_wfO md hd.1 hl.1 hx.1
-    obtain ⟨b1, b2⟩ := image_wfC c hd.2 hl.2 hx.2
-    exact ⟨by simp [asReadC, wfC, a1, b1], by simp [asReadC, lexImgC, a2, b2]⟩
-theorem image_wfR : ∀ r : Rows, decR r = true → lexLeavesOkR r = true → anyGridR badNode r = false →
-    wfR (asReadR r) = true ∧ lexImgR (asReadR r) = r
-  | .nil, _, _, _ => ⟨rfl, rfl⟩
+    obtain ⟨a1, a2⟩ := image_goodO md hd.1 hl.1 hx.1
+    obtain ⟨b1, b2⟩ := image_goodC c hd.2 hl.2 hx.2
+    exact ⟨by simp only [asReadC, GoodCG]; exact ⟨a1, b1⟩, by simp [asReadC, lexImgC, a2, b2]⟩
+theorem image_goodR : ∀ r : Rows, decR r = true → lexLeavesOkR r = true → anyGridR badNode r = false →
+    GoodRG (asReadR r) ∧ lexImgR (asReadR r) = r
+  | .nil, _, _, _ => ⟨trivial, rfl⟩
   | .cons r rs, hd, hl, hx => by
     simp only [decR, Bool.and_eq_true] at hd
     simp only [lexLeavesOkR, Bool.and_eq_true] at hl
     simp only [anyGridR, Bool.or_eq_false_iff] at hx
-    obtain ⟨a1, a2⟩ := image_wfT r hd.1 hl.1 hx.1
-    obtain ⟨b1, b2⟩ := image_wfR rs hd.2 hl.2 hx.2
-    exact ⟨by simp [asReadR, wfR, a1, b1], by simp [asReadR, lexImgR, a2, b2]⟩
+    obtain ⟨a1, a2⟩ := image_goodT r hd.1 hl.1 hx.1
+    obtain ⟨b1, b2⟩ := image_goodR rs hd.2 hl.2 hx.2
+    exact ⟨by simp only [asReadR, GoodRG]; exact ⟨a1, b1⟩, by simp [asReadR, lexImgR, a2, b2]⟩
 end
 
 end Hs.Zinc
